@@ -9,7 +9,7 @@ SEEDS=${@:-$(ls -d */ | tr -d /)}
 mkdir -p /tmp/seedrun
 rc=0
 for s in $SEEDS; do
-  id=${s%%-*}
+  id=${s:0:3}
   wt=/tmp/seedrun/$s
   git -C /repo worktree add -q --detach $wt HEAD 2>/dev/null || { echo "$s: worktree failed"; rc=1; continue; }
   if ! git -C $wt apply /verif/seeded/$s/patch.diff; then echo "$s: patch does not apply"; rc=1; git -C /repo worktree remove --force $wt; continue; fi
